@@ -8,6 +8,7 @@ package app
 //@ assume func (*context).Action
 //@   modifies heap("balance.Store"), heap("fees.Store"), heap("identity.ValidatorStore"), heap("identity.WitnessStore"), heap("ons.DomainStore"), heap("delegation.DelegationStore"), heap("network_delegation.MasterStore"), heap("evidence.EvidenceStore"), heap("bitcoin.TrackerStore"), heap("ethereum.TrackerStore"), heap("governance.ProposalMasterStore"), heap("rewards.RewardMasterStore"), heap("governance.Store"), heap("vm.CommitStateDB")
 //@   ensures result != nil && fresh(result) && result.State == state && result.Router == ctx.actionRouter && result.Router != nil
+//@   ensures state != nil && state.gc != nil ==> ctxOK(result)       // A-CTX: contexts built by Action have their stores aimed at `state`, the fee option set and the currencies registered under their own names (established at genesis)
 
 //@ func (*App).txDeliverer$1
 //@   requires app != nil && app.Context.deliver != nil && wfState(app.Context.deliver) && !sessOpen(app.Context.deliver) && sgas(app.Context.deliver) >= 0 && app.Context.actionRouter != nil && app.Context.stateDB != nil
